@@ -583,9 +583,9 @@ fn cmp_seconds_to_transitions(
         // NOTE: The assumption here is that mismatched day types on
         // a POSIX string is an illformed string.
         _ => {
-            return Err(
-                TemporalError::assert().with_message("Mismatched day types on a POSIX string.")
-            )
+            return Err(TemporalError::general(
+                "Mismatched day types on a POSIX string are not supported.",
+            ))
         }
     };
 
